@@ -711,8 +711,8 @@ def candidates(enc, shape, chunks, fixed_layout=False):
                 yield out, shape, chunks
     # no zero-size chunks inside an axis
     for a in range(nd):
-        if shape[a] > 0 and 0 in chunks[a]:
-            yield enc, shape, chunks[:a] + (tuple(c for c in chunks[a] if c),) + chunks[a + 1:]
+        if len(chunks[a]) > 1 and 0 in chunks[a]:
+            yield enc, shape, chunks[:a] + (tuple(c for c in chunks[a] if c) or (0,),) + chunks[a + 1:]
     # one chunk on an axis
     for a in range(nd):
         if len(chunks[a]) > 1:
@@ -767,9 +767,14 @@ def shrink(enc, shape, chunks, probe, sym, accept=None, budget=500, fixed_layout
     return enc, shape, chunks, sym
 
 
+def zero_chunk_inside(chunks):
+    """Some axis has several chunks one of which is empty."""
+    return any(len(c) > 1 and 0 in c for c in chunks)
+
+
 def label_features(enc, shape, chunks, layout=True):
     t = "+".join(tokens(enc, shape, chunks if layout else None)) or "full-slices"
-    if layout and any(0 in c and n > 0 for c, n in zip(chunks, shape)):
+    if layout and zero_chunk_inside(chunks):
         t += "&zero-size-chunk"
     elif layout and any(len(c) > 1 for c in chunks):
         t += "&split-chunks"
